@@ -8,7 +8,10 @@ another connection's object id, graceful close) with hostile sessions: random by
 every offset, bit flips in header and payload (the C04 mutation corpus re-framed), corrupt and truncated compressed
 payloads, the length field 0xFFFFFFFF, several frames in one write, disconnecting at each point, failing, stalled and
 slow authentication (credentials sent by a later operation), connections reset right after the handshake (SO_LINGER 0,
-in bursts), and forged references: a client sends, on its own connection, the id of an object lent to another client
+in bursts), well-formed requests that name builtin / foreign types for the sender's own objects and answer the server's
+class inspection with nothing, junk or dangerous method names (while well-behaved clients pass by-reference arguments of
+those builtin types - range, dict views, map, zip, enumerate, reversed, generators, memoryview, iterators, functions - to
+a service method that iterates, measures, indexes or calls them through callbacks, results checked), and forged references: a client sends, on its own connection, the id of an object lent to another client
 (while that one holds it, after it released it, after it disconnected).  The byte strings go to the model as bytes: the model cuts them into frames itself (`classify`, with the
 brine decoder of C04) — only `zlib.decompress` results are supplied as environment facts.  After each operation the
 harness waits (ceiling 10 s, 3 ms polls, no fixed sleeps) until the observable state of the real server equals the
@@ -39,6 +42,11 @@ TRUSTED = [
     "references) or that are the protocol's own HANDLE_CLOSE are outside the hostile alphabet; decodable REPLY / "
     "EXCEPTION frames and 3-element frozensets are resolved by the environment parameter `Env.raises` (the driver reports "
     "them NOT-MODELLED and the harness skips the case); zlib is an environment parameter",
+    "a request whose handler calls back into the client that sent it (by-reference arguments: `u` / `x` operations) is one "
+    "frame to the model, answered when the callbacks are; a client that stops answering such callbacks (the server would "
+    "wait sync_request_timeout) is not generated",
+    "rpyc keeps process-wide state (netref class caches): the direct oracle is evaluated in a fresh interpreter per script, "
+    "so that a reported script reproduces on its own",
     "forking server: object ids are per process, so the model's global object counter idealises them (a foreign id that "
     "coincides with a local one resolves to the prober's own object; `probe` operations are not generated for it)",
     "the harness observes the real server through its public attributes, a recording wrapper around the pool's poll object, "
@@ -180,6 +188,18 @@ def corpus():
             out.append(case_dict(kind, "tcp", False, 3,
                                  ["c1:g", "l1", "l1", "l1", "c2:g", "p2", "o2:0", "o2:1", "o2:2", "o1:0", "d1:0", "o2:0",
                                   "o1:0", "o1:1", "l2", "o1:3", "o2:3", "g1", "o2:1", "o2:2", "p2"]))
+    nuses, nnames = len(servers.USES), len(servers.POISON_NAMES)
+    for kind in KINDS:
+        # by-reference ARGUMENTS: the service iterates / measures / indexes / calls objects of builtin types that have no
+        # pre-built proxy class (range, dict views, map, zip, ...), through callbacks to the client that passed them; a
+        # hostile client names those very types (and other clients' classes) for objects of its own and answers the server's
+        # class inspection with nothing, junk, or dangerous method names - before and between the well-behaved calls
+        toks = ["c1:g", "c2:g"] + ["x1:%d:%d" % (n, n) for n in range(nnames)] + ["u2:%d" % n for n in range(nuses)]
+        out.append(case_dict(kind, "tcp", False, 3, toks + ["p2"]))
+        toks = ["c1:g", "c2:g", "c3:g"]
+        for n in range(nuses):
+            toks += ["x1:%d:%d" % (n, n + 1), "u2:%d" % n, "x1:%d:%d" % (n + 7, n + 3), "u3:%d" % ((n + 5) % nuses)]
+        out.append(case_dict(kind, "unix", False, 3, toks + ["p2", "p3"]))
     for kind in KINDS:
         # clients that reset while inside the authenticator (slow credentials, then RST) - except on the pool, where one
         # such client is the stall finding: there they reset at once
@@ -240,6 +260,15 @@ def gen_case(r, corp, kind=None):
             else:
                 hostile_open.append(nextk)
             nextk += 1
+        elif x < 44 and x >= 32:                                      # names builtin / foreign types, answers INSPECT with junk
+            k = nextk
+            nextk += 1
+            toks.append("c%d:g" % k)
+            hostile_open.append(k)
+            for _ in range(r.range(1, 4)):
+                toks.append("x%d:%d:%d" % (k, r.below(len(servers.POISON_NAMES)), r.below(len(servers.POISON_ANSWERS))))
+                if good and r.chance(1, 2):
+                    toks.append("u%d:%d" % (r.choice(good), r.below(len(servers.USES))))
         elif transport == "tcp" and x < 32:                           # connect and reset at once, several times in a row
             for _ in range(r.range(2, 6)):
                 toks.append("c%d:r" % nextk)
@@ -263,6 +292,8 @@ def gen_case(r, corp, kind=None):
         for g in list(good):
             if r.chance(2, 3):
                 toks.append("p%d" % g)
+            if r.chance(1, 3):
+                toks.append("u%d:%d" % (g, r.below(len(servers.USES))))
         if good and r.chance(1, 3):
             g = r.choice(good)
             toks.append("l%d" % g)
@@ -331,7 +362,7 @@ def compare_case(case, ceiling=servers.CEILING):
 
 
 def hostile_sessions(case):
-    return sum(1 for t in case["ops"] if t[0] == "r" or (t[0] == "c" and t[-2:] in (":b", ":s", ":r")))
+    return sum(1 for t in case["ops"] if t[0] in "rx" or (t[0] == "c" and t[-2:] in (":b", ":s", ":r")))
 
 
 # ---------------------------------------------------------------------------------------------- correspondence
@@ -391,7 +422,7 @@ def correspondence(ctx):
             c.count("auth:" + ("yes" if case["auth"] else "no"))
             for t, l in zip(case["ops"], lines):
                 c.count("op:" + t[0])
-                if t[0] in "plo":
+                if t[0] in "plou":
                     c.count("good-client-obs:" + l.split("|", 1)[0])
                 if t[0] == "r":
                     fr, tail = frames_of(bytes.fromhex(t.split(":")[1]))
@@ -441,6 +472,8 @@ def oracle_case(case, known=(), ceiling=servers.CEILING):
                 stalled.discard(k)
                 if tok.endswith(":g"):
                     hostile.discard(k)        # slow, but well-behaved from here on
+            if t == "x":
+                hostile.add(k)
             if t in "ri":
                 hostile.add(k)
                 data = bytes.fromhex(tok.split(":")[1]) if t == "r" else b"".join(
@@ -484,8 +517,8 @@ def oracle_case(case, known=(), ceiling=servers.CEILING):
                 continue
             if t == "c" and obs != "ok":
                 return where + "a well-behaved client could not connect: %s" % obs, "C16:%s:not-accepting" % kind
-            if t in "plod":
-                want = dict(p=("pong",), l=("ref",), o=("keyerr", "resolved"), d=("done",))[t]
+            if t in "plodu":
+                want = dict(p=("pong",), l=("ref",), o=("keyerr", "resolved"), d=("done",), u=("pong",))[t]
                 if obs not in want:
                     if obs == "timeout" and excuse:
                         if excuse in known:
@@ -495,6 +528,8 @@ def oracle_case(case, known=(), ceiling=servers.CEILING):
                                    % (sorted(holding), case["nb"]) if excuse == SIG_STARVE else
                                    "client(s) %s stall the authentication" % sorted(stalled))), excuse
                     sig = "C16:%s:good-client-call-failed" % kind
+                    if t == "u":
+                        sig = "C16:%s:good-client-wrong-result" % kind
                     if obs == "leak":
                         sig = "C16:%s:state-leak-between-instances" % kind
                     return where + "well-behaved client %d got %r" % (k, obs), sig
@@ -553,11 +588,32 @@ def oracle_fault(fault):
     return None
 
 
+def oracle_fresh(case, known=(), ceiling=servers.CEILING):
+    """`oracle_case` in a process of its own: rpyc keeps process-wide state (class caches), so a failure is only believed - and
+    a shrunk script only accepted - if it reproduces from a clean interpreter, as the replay will run it"""
+    import json
+    import os
+    import subprocess
+    import sys
+    here = os.path.dirname(os.path.abspath(__file__))
+    env = dict(os.environ)
+    env["RPYC_REPO"] = os.environ.get("RPYC_REPO", "/repo")
+    env["PYTHONPATH"] = os.pathsep.join([env["RPYC_REPO"], here, os.path.normpath(os.path.join(here, ".."))])
+    p = subprocess.run([sys.executable, os.path.abspath(__file__), "--oracle"], env=env, stdout=subprocess.PIPE,
+                       stderr=subprocess.DEVNULL, timeout=600,
+                       input=json.dumps(dict(case=case, known=sorted(known), ceiling=ceiling)).encode(), cwd=here)
+    lines = [l for l in p.stdout.decode().split("\n") if l.startswith("RESULT ")]
+    if not lines:
+        raise servers.Infra("oracle subprocess gave no result (exit %s)" % p.returncode)
+    res = json.loads(lines[-1][7:])
+    return None if res is None else (res[0], res[1])
+
+
 def oracle_twice(case, known):
-    res = oracle_case(case, known)
+    res = oracle_fresh(case, known)
     if res is None:
         return None
-    res2 = oracle_case(case, known)
+    res2 = oracle_fresh(case, known)      # a failing case is repeated once before it is believed
     if res2 is None or res2[1] != res[1]:
         return None
     return res2
@@ -569,7 +625,7 @@ def shrink(case, sig, known, budget_s=40):
     i = 0
     while i < len(ops) and time.time() - t0 < budget_s:
         cand = ops[:i] + ops[i + 1:]
-        res = oracle_case(dict(case, ops=cand), known, ceiling=2.5) if cand else None
+        res = oracle_fresh(dict(case, ops=cand), known, ceiling=2.5) if cand else None
         if res is not None and res[1] == sig:
             ops = cand
         else:
@@ -608,7 +664,7 @@ def oracle_search(ctx, corr, broken):
         if sig in known:
             continue
         small = shrink(case, sig, known, 40)
-        res = oracle_case(small, known)
+        res = oracle_fresh(small, known)
         if res is not None and res[1] == sig:
             return small, res[0], sig
         return case, msg, sig
@@ -657,3 +713,19 @@ def replay(case):
     res = oracle_case(case)
     out["oracle"] = "holds" if res is None else dict(failure=res[0], signature=res[1])
     return out
+
+
+if __name__ == "__main__":
+    import json
+    import os
+    import sys
+    if len(sys.argv) > 1 and sys.argv[1] == "--oracle":
+        here = os.path.dirname(os.path.abspath(__file__))
+        sys.path.insert(0, os.path.join(here, ".."))
+        sys.path.insert(0, here)
+        sys.path.insert(0, os.environ.get("RPYC_REPO", "/repo"))
+        req = json.loads(sys.stdin.read())
+        out = oracle_case(req["case"], set(req["known"]), req["ceiling"])
+        print("RESULT " + json.dumps(None if out is None else [out[0], out[1]]), flush=True)
+        os._exit(0)
+
